@@ -86,7 +86,16 @@ def span_of(obj):
         return ('RAWSPAN', repr(info)[:60])
 
 
-def run(parse, text, pos=0, fullparse=True, spans=False, time_limit=1.0, raw=False):
+def run(parse, text, pos=0, fullparse=True, spans=False, time_limit=1.0, raw=False, patient=False):
+    """(see _run1)  With patient=True a DIVERGES outcome is only believed after a second run with a budget of at
+    least 30 s: a loaded machine must never turn into an alarm.  Only for calls that may be repeated."""
+    out = _run1(parse, text, pos, fullparse, spans, time_limit, raw)
+    if patient and out['kind'] == 'DIVERGES' and time_limit is not None:
+        out = _run1(parse, text, pos, fullparse, spans, max(30.0, time_limit * 30), raw)
+    return out
+
+
+def _run1(parse, text, pos=0, fullparse=True, spans=False, time_limit=1.0, raw=False):
     """Run one parse call; returns a dict describing the complete observable outcome.
 
     kind: RET | PARTIAL | ERROR | EXC | DIVERGES
